@@ -333,6 +333,9 @@ def refpeer_rekey(role, when, c1, c2, initiator):
             viol.append(('loop-exception', repr(exc[0].get('exception') or exc[0].get('message'))[:200]))
     except (R.RefError, Livelock) as exc:
         viol.append(('refpeer-reject', str(exc)))
+    except asyncssh.Error as exc:
+        # the application's own call failed: the endpoint under test gave up on a conforming peer
+        viol.append(('connection-lost', repr(exc)[:200]))
     finally:
         w.close()
     return viol
@@ -404,6 +407,9 @@ def stray_run(role, suite, strict, after_rekeys, msg):
             viol.append(('loop-exception', repr(exc[0].get('exception') or exc[0].get('message'))[:200]))
     except (R.RefError, Livelock) as exc:
         viol.append(('refpeer-reject', str(exc)))
+    except asyncssh.Error as exc:
+        # the application's own call failed: the endpoint under test gave up on a conforming peer
+        viol.append(('connection-lost', repr(exc)[:200]))
     finally:
         w.close()
     return viol
